@@ -7,6 +7,7 @@ package c10
 
 import (
 	"fmt"
+	"reflect"
 	"sort"
 	"strings"
 
@@ -44,7 +45,7 @@ func seed(m *model) {
 	for _, r := range m.rows {
 		args := make([]interface{}, len(m.fields))
 		for i, c := range r.cells {
-			args[i] = c.v
+			args[i] = dbArg(c.v)
 		}
 		_, err := H.SQL.Exec(q, args...)
 		must(err)
@@ -172,6 +173,12 @@ func sqlOf(evs []recdrv.Event) []string {
 // DoUpdates list; the same class in a row the upsert inserts is a create-permission matter and
 // has the ordinary family/class signature.
 func signature(m *model, o *op, x problem) string {
+	if o.second {
+		// a finisher run on a handle that already ran an update: its own class
+		first := *o
+		first.second = false
+		return "second-finisher-on-handle/" + signature(m, &first, x)
+	}
 	switch {
 	case m.blockedCol(x.Col) && (x.Class == "missing-write" || (x.Class == "wrong-value-written" && o.family == "upsert-doupdates" && !x.NewRow)):
 		// a column whose permission-less duplicate on the shorter path is declared BEFORE the
@@ -278,219 +285,264 @@ func run(c *core.Ctx) {
 	nops := 12
 	for i := 0; i < nops; i++ {
 		kind := core.Pick(r, opKinds)
-		o := g.genOp(kind)
-		seed(m)
-		before := snapshot(m)
-		if len(before) != len(m.rows) {
-			c.Inconclusive("harness: seeding failed")
-			return
-		}
-		ck := condKeys(m, o)
-		p := predict(m, o, ck)
-		H.Rec.Reset()
-		mark := H.Rec.Mark()
-		t0 := H.Clock.Ticks()
-		desc, res := exec(H.DB.Session(&gorm.Session{}), m, o)
-		t1 := H.Clock.Ticks()
-		evs := H.Rec.Since(mark)
-		after := snapshot(m)
-		c.Logf("OP %s -> err=%v rows=%d", desc, res.Error, res.RowsAffected)
-		c.Inc("ops")
-		c.Inc("op_" + o.kind)
-		probs := compare(m, p, before, after, t0, t1)
-		if res.Error != nil {
-			c.Inc("op_errors")
-			probs = append([]problem{{Class: "error", Got: res.Error.Error(), Want: "no error", Why: "a valid write returned an error"}}, probs...)
-		}
-		if len(probs) > 0 {
-			var ps []string
-			for _, x := range probs {
-				ps = append(ps, x.String())
+		first := g.genOp(kind)
+		// the operation and, for some updates, a second finisher on the same handle; each step runs
+		// against a freshly seeded table (raw SQL, the handle is not involved)
+		var handle *gorm.DB
+		var firstDesc string
+		for o := first; o != nil; o = o.next {
+			seed(m)
+			before := snapshot(m)
+			if len(before) != len(m.rows) {
+				c.Inconclusive("harness: seeding failed")
+				return
 			}
-			for _, sg := range signatures(m, o, probs) {
-				c.Inc("violation_" + sg)
-				c.Violation(sg, map[string]interface{}{
-					"model":       m.decls(),
-					"seeded_keys": p0keys(m),
-					"operation":   desc,
-					"error":       fmt.Sprint(res.Error),
-					"target_rows": p.target,
-					"problems":    ps,
-					"sql":         sqlOf(evs),
-					"note":        "every cell was seeded with a unique sentinel (ints 1000+, strings s<row>_<col>, times in 2001; column defaults 700+ / dflt<n>); expected = write-set predictor of the property statement; one violation per distinct class of disagreement of the operation",
-				})
+			ck := condKeys(m, o)
+			p := predict(m, o, ck)
+			H.Rec.Reset()
+			mark := H.Rec.Mark()
+			t0 := H.Clock.Ticks()
+			var desc string
+			var res *gorm.DB
+			if !o.second {
+				var pre, chain, fin string
+				pre, chain, fin, handle, res = exec(H.DB.Session(&gorm.Session{}), m, o)
+				desc = pre + chain + fin
+				if o.next != nil && o.next.viaResult {
+					handle = res
+					firstDesc = pre + "res := " + chain + fin + "; /* table re-seeded with raw SQL */ res"
+				} else {
+					firstDesc = pre + "tx := " + chain + "; tx" + fin + "; /* table re-seeded with raw SQL */ tx"
+				}
+			} else {
+				var fin string
+				_, fin, res = finish(handle, m, o, reflect.Value{}, "")
+				desc = firstDesc + fin
 			}
-			continue
-		}
-		// what the case exercised
-		var nMust, nDenied, nNarrow, nRefresh, nZero, nDefKept, nDefZero, nEmb, nDupMust, nDupKept int
-		dupHit := map[string]bool{}
-		defsHit := map[string]bool{}
-		permsHit := map[string]bool{}
-		for _, k := range p.order {
-			re := p.rows[k]
-			for _, f := range m.fields {
-				e := re.cells[f.col]
-				if re.isNew && f.def != "" {
-					// a field with a default on an insert: a non-zero value kept out, or a zero value defaulted
-					if e.mode == mKeep && (e.cls == "denied-column-written" || e.cls == "omitted-column-written" || e.cls == "unselected-column-written") {
-						if rc := recOfKey(m, o, k); rc != nil {
-							if mv, ok := rc.vals[f.idx]; ok && (o.isMap || !isGoZero(f.k, mv.lv)) {
-								nDefKept++
-								defsHit[f.def] = true
+			t1 := H.Clock.Ticks()
+			evs := H.Rec.Since(mark)
+			after := snapshot(m)
+			c.Logf("OP %s -> err=%v rows=%d", desc, res.Error, res.RowsAffected)
+			c.Inc("ops")
+			c.Inc("op_" + o.kind)
+			if o.second {
+				c.Inc("ops_second_finisher_on_handle")
+			}
+			probs := compare(m, p, before, after, t0, t1)
+			if res.Error != nil {
+				c.Inc("op_errors")
+				probs = append([]problem{{Class: "error", Got: res.Error.Error(), Want: "no error", Why: "a valid write returned an error"}}, probs...)
+			}
+			if len(probs) > 0 {
+				var ps []string
+				for _, x := range probs {
+					ps = append(ps, x.String())
+				}
+				for _, sg := range signatures(m, o, probs) {
+					c.Inc("violation_" + sg)
+					c.Violation(sg, map[string]interface{}{
+						"model":       m.decls(),
+						"seeded_keys": p0keys(m),
+						"operation":   desc,
+						"error":       fmt.Sprint(res.Error),
+						"target_rows": p.target,
+						"problems":    ps,
+						"sql":         sqlOf(evs),
+						"note":        "every cell was seeded with a unique sentinel (ints 1000+, strings s<row>_<col>, times in 2001; column defaults 700+ / dflt<n>); expected = write-set predictor of the property statement; one violation per distinct class of disagreement of the operation",
+					})
+				}
+				break
+			}
+			if o.next != nil && o.returning != "" && o.modelSlice && len(p.target) == 0 {
+				// RETURNING without rows empties the Model(slice) of the handle: what a second finisher
+				// then addresses is not fixed by the statement
+				o.next = nil
+			}
+			// what the case exercised
+			var nMust, nDenied, nNarrow, nRefresh, nZero, nDefKept, nDefZero, nEmb, nDupMust, nDupKept, nEmpty int
+			dupHit := map[string]bool{}
+			defsHit := map[string]bool{}
+			permsHit := map[string]bool{}
+			for _, k := range p.order {
+				re := p.rows[k]
+				for _, f := range m.fields {
+					e := re.cells[f.col]
+					if re.isNew && f.def != "" {
+						// a field with a default on an insert: a non-zero value kept out, or a zero value defaulted
+						if e.mode == mKeep && (e.cls == "denied-column-written" || e.cls == "omitted-column-written" || e.cls == "unselected-column-written") {
+							if rc := recOfKey(m, o, k); rc != nil {
+								if mv, ok := rc.vals[f.idx]; ok && (o.isMap || !isGoZero(f.k, mv.lv)) {
+									nDefKept++
+									defsHit[f.def] = true
+								}
+							}
+						} else if e.mode == mMust && e.alt != "" {
+							nDefZero++
+						}
+					}
+					if e.mode == mMust && !f.pk {
+						if rc := recOfKey(m, o, k); rc != nil && isColl(f.k.class) {
+							if mv, ok := rc.vals[f.idx]; ok && mv.form == "typed" && isEmptyColl(mv.lv) {
+								nEmpty++ // an empty, non-nil slice / map: not a zero value, must be written
 							}
 						}
-					} else if e.mode == mMust && e.alt != "" {
-						nDefZero++
+						if f.grp != nil {
+							nEmb++
+						}
+						if f.dup != nil && !f.blocked {
+							nDupMust++
+							dupHit[f.dup.role] = true
+						}
+					} else if e.mode == mKeep && f.dup != nil && (re.isNew || contains(p.target, k)) {
+						if rc := recOfKey(m, o, k); rc != nil && !o.isMap {
+							if dv, ok := rc.dvals[f.dup.id]; ok && !isGoZero(f.dup.k, dv) {
+								nDupKept++ // the duplicate carried a value while the column had to stay
+								dupHit[f.dup.role] = true
+							}
+						}
+					}
+					switch {
+					case e.mode == mMust && !f.pk:
+						nMust++
+					case e.mode == mRefresh:
+						nRefresh++
+					case e.mode == mKeep && (e.cls == "denied-column-written" || e.cls == "ignored-field-written" && (re.isNew || contains(p.target, k))):
+						nDenied++
+						permsHit[f.perm] = true
+					case e.mode == mKeep && (e.cls == "omitted-column-written" || e.cls == "unselected-column-written" || e.cls == "unlisted-column-written"):
+						nNarrow++
+					case e.mode == mKeep && (e.cls == "zero-field-written" || e.cls == "autotime-touched-by-column-update"):
+						nZero++
 					}
 				}
-				if e.mode == mMust && !f.pk {
-					if f.grp != nil {
-						nEmb++
+			}
+			c.Add("cells_must_written", nMust)
+			c.Add("cells_denied_checked", nDenied)
+			c.Add("cells_narrowed_checked", nNarrow)
+			c.Add("cells_refresh_checked", nRefresh)
+			c.Add("cells_zero_or_untracked_checked", nZero)
+			c.Add("cells_default_field_value_kept_out_on_insert", nDefKept)
+			c.Add("cells_default_field_zero_value_on_insert", nDefZero)
+			c.Add("cells_written_through_embedded_struct", nEmb)
+			c.Add("cells_written_next_to_duplicate_field", nDupMust)
+			c.Add("cells_kept_although_duplicate_field_nonzero", nDupKept)
+			c.Add("cells_empty_nonnil_collection_written", nEmpty)
+			if o.modelSlice {
+				var zp, zk, rp bool
+				seenK := map[string]bool{}
+				for _, k := range o.modelElems {
+					switch {
+					case m.keyIsZero(k):
+						zk = true
+					case !m.fullKey(k):
+						zp = true
 					}
-					if f.dup != nil && !f.blocked {
-						nDupMust++
-						dupHit[f.dup.role] = true
+					if seenK[normL(k)] {
+						rp = true
 					}
-				} else if e.mode == mKeep && f.dup != nil && (re.isNew || contains(p.target, k)) {
-					if rc := recOfKey(m, o, k); rc != nil && !o.isMap {
-						if dv, ok := rc.dvals[f.dup.id]; ok && !isGoZero(f.dup.k, dv) {
-							nDupKept++ // the duplicate carried a value while the column had to stay
-							dupHit[f.dup.role] = true
+					seenK[normL(k)] = true
+				}
+				if zp {
+					c.Inc("ops_model_slice_element_with_zero_key_part")
+				}
+				if zk {
+					c.Inc("ops_model_slice_element_without_key")
+				}
+				if rp {
+					c.Inc("ops_model_slice_repeated_key")
+				}
+				if o.modelArray {
+					c.Inc("ops_model_array")
+				}
+				if o.modelElemPtr {
+					c.Inc("ops_model_slice_of_pointers")
+				}
+			}
+			if o.dropKey {
+				c.Inc("ops_create_key_carried_but_omitted")
+			}
+			if o.returning != "" {
+				c.Inc("ops_" + o.family + "_with_returning_" + o.returning)
+				if o.second {
+					c.Inc("ops_second_finisher_on_handle_with_returning")
+				}
+			}
+			if nEmpty > 0 {
+				c.Inc("ops_empty_nonnil_collection_value_written")
+			}
+			if o.reordered {
+				c.Inc("ops_chain_calls_reordered")
+			}
+			if len(o.sel) > 0 {
+				c.Inc("ops_select_form_" + o.selForm)
+			}
+			if o.omitJoin != "" {
+				c.Inc("ops_omit_one_comma_joined_string")
+				for _, n := range o.omit[1:] {
+					if n.fi >= 0 && !n.byCol && strings.Contains(o.omitJoin, " ") {
+						c.Inc("ops_omit_comma_joined_blank_before_field_name")
+						break
+					}
+				}
+			}
+			for _, n := range append(append([]nameRef{}, o.sel...), o.omit...) {
+				if n.qual {
+					c.Inc("names_table_qualified_column")
+				}
+			}
+			if nDefKept > 0 && len(o.recs) > 1 {
+				c.Inc("ops_batch_default_field_value_kept_out")
+			}
+			c.Add("rows_outside_target_checked", len(m.rows)-len(p.target))
+			if len(p.target) > 0 && len(p.target) < len(m.rows) {
+				c.Inc("ops_strict_subset_target")
+			}
+			if len(p.target) == 0 && (o.family == "updates-struct" || o.family == "updates-map" || o.family == "update" || o.family == "updatecolumns") {
+				c.Inc("ops_empty_target")
+			}
+			nontrivial := nMust+nRefresh > 0 || nDenied+nNarrow > 0
+			if nontrivial {
+				c.Inc("ops_nontrivial")
+				var ph, fm []string
+				for t := range permsHit {
+					ph = append(ph, t)
+				}
+				sort.Strings(ph)
+				for t := range o.forms {
+					fm = append(fm, t)
+				}
+				sort.Strings(fm)
+				spell := ""
+				for _, n := range append(append([]nameRef{}, o.sel...), o.omit...) {
+					if n.fi >= 0 {
+						if n.qual {
+							spell += "q"
+						} else if n.byCol {
+							spell += "c"
+						} else {
+							spell += "f"
 						}
 					}
 				}
-				switch {
-				case e.mode == mMust && !f.pk:
-					nMust++
-				case e.mode == mRefresh:
-					nRefresh++
-				case e.mode == mKeep && (e.cls == "denied-column-written" || e.cls == "ignored-field-written" && (re.isNew || contains(p.target, k))):
-					nDenied++
-					permsHit[f.perm] = true
-				case e.mode == mKeep && (e.cls == "omitted-column-written" || e.cls == "unselected-column-written" || e.cls == "unlisted-column-written"):
-					nNarrow++
-				case e.mode == mKeep && (e.cls == "zero-field-written" || e.cls == "autotime-touched-by-column-update"):
-					nZero++
+				if len(spell) > 2 {
+					spell = spell[:2]
 				}
-			}
-		}
-		c.Add("cells_must_written", nMust)
-		c.Add("cells_denied_checked", nDenied)
-		c.Add("cells_narrowed_checked", nNarrow)
-		c.Add("cells_refresh_checked", nRefresh)
-		c.Add("cells_zero_or_untracked_checked", nZero)
-		c.Add("cells_default_field_value_kept_out_on_insert", nDefKept)
-		c.Add("cells_default_field_zero_value_on_insert", nDefZero)
-		c.Add("cells_written_through_embedded_struct", nEmb)
-		c.Add("cells_written_next_to_duplicate_field", nDupMust)
-		c.Add("cells_kept_although_duplicate_field_nonzero", nDupKept)
-		if o.modelSlice {
-			var zp, zk, rp bool
-			seenK := map[string]bool{}
-			for _, k := range o.modelElems {
-				switch {
-				case m.keyIsZero(k):
-					zk = true
-				case !m.fullKey(k):
-					zp = true
+				var dh []string
+				for t := range defsHit {
+					dh = append(dh, t)
 				}
-				if seenK[normL(k)] {
-					rp = true
+				sort.Strings(dh)
+				var du []string
+				for t := range dupHit {
+					du = append(du, t)
 				}
-				seenK[normL(k)] = true
-			}
-			if zp {
-				c.Inc("ops_model_slice_element_with_zero_key_part")
-			}
-			if zk {
-				c.Inc("ops_model_slice_element_without_key")
-			}
-			if rp {
-				c.Inc("ops_model_slice_repeated_key")
-			}
-			if o.modelArray {
-				c.Inc("ops_model_array")
-			}
-			if o.modelElemPtr {
-				c.Inc("ops_model_slice_of_pointers")
-			}
-		}
-		if o.dropKey {
-			c.Inc("ops_create_key_carried_but_omitted")
-		}
-		if o.reordered {
-			c.Inc("ops_chain_calls_reordered")
-		}
-		if len(o.sel) > 0 {
-			c.Inc("ops_select_form_" + o.selForm)
-		}
-		if o.omitJoin != "" {
-			c.Inc("ops_omit_one_comma_joined_string")
-			for _, n := range o.omit[1:] {
-				if n.fi >= 0 && !n.byCol && strings.Contains(o.omitJoin, " ") {
-					c.Inc("ops_omit_comma_joined_blank_before_field_name")
-					break
+				sort.Strings(du)
+				c.Shape(o.kind, o.tform, o.selMode, spell, ph, fm, nMust > 0, nRefresh > 0, nNarrow > 0, nZero > 0, len(p.target) > 1, m.pk.k.name, len(m.pks), dh, o.dropKey, o.reordered, listForm(o),
+					nEmb > 0, m.layoutName(), du, sliceForm(m, o), nEmpty > 0, o.returning, o.second)
+				if c.WantSample() && i == 5 {
+					c.Sample(map[string]interface{}{"model": m.decls(), "operation": desc, "target_rows": p.target, "sql": sqlOf(evs),
+						"checked": fmt.Sprintf("%d written cells, %d denied, %d narrowed, %d refreshed, %d rows outside the target unchanged", nMust, nDenied, nNarrow, nRefresh, len(m.rows)-len(p.target))})
 				}
-			}
-		}
-		for _, n := range append(append([]nameRef{}, o.sel...), o.omit...) {
-			if n.qual {
-				c.Inc("names_table_qualified_column")
-			}
-		}
-		if nDefKept > 0 && len(o.recs) > 1 {
-			c.Inc("ops_batch_default_field_value_kept_out")
-		}
-		c.Add("rows_outside_target_checked", len(m.rows)-len(p.target))
-		if len(p.target) > 0 && len(p.target) < len(m.rows) {
-			c.Inc("ops_strict_subset_target")
-		}
-		if len(p.target) == 0 && (o.family == "updates-struct" || o.family == "updates-map" || o.family == "update" || o.family == "updatecolumns") {
-			c.Inc("ops_empty_target")
-		}
-		nontrivial := nMust+nRefresh > 0 || nDenied+nNarrow > 0
-		if nontrivial {
-			c.Inc("ops_nontrivial")
-			var ph, fm []string
-			for t := range permsHit {
-				ph = append(ph, t)
-			}
-			sort.Strings(ph)
-			for t := range o.forms {
-				fm = append(fm, t)
-			}
-			sort.Strings(fm)
-			spell := ""
-			for _, n := range append(append([]nameRef{}, o.sel...), o.omit...) {
-				if n.fi >= 0 {
-					if n.qual {
-						spell += "q"
-					} else if n.byCol {
-						spell += "c"
-					} else {
-						spell += "f"
-					}
-				}
-			}
-			if len(spell) > 2 {
-				spell = spell[:2]
-			}
-			var dh []string
-			for t := range defsHit {
-				dh = append(dh, t)
-			}
-			sort.Strings(dh)
-			var du []string
-			for t := range dupHit {
-				du = append(du, t)
-			}
-			sort.Strings(du)
-			c.Shape(o.kind, o.tform, o.selMode, spell, ph, fm, nMust > 0, nRefresh > 0, nNarrow > 0, nZero > 0, len(p.target) > 1, m.pk.k.name, len(m.pks), dh, o.dropKey, o.reordered, listForm(o),
-				nEmb > 0, m.layoutName(), du, sliceForm(m, o))
-			if c.WantSample() && i == 5 {
-				c.Sample(map[string]interface{}{"model": m.decls(), "operation": desc, "target_rows": p.target, "sql": sqlOf(evs),
-					"checked": fmt.Sprintf("%d written cells, %d denied, %d narrowed, %d refreshed, %d rows outside the target unchanged", nMust, nDenied, nNarrow, nRefresh, len(m.rows)-len(p.target))})
 			}
 		}
 	}
